@@ -654,7 +654,9 @@ func (c *Conn) reconnect(ctx context.Context) error {
 	}
 	c.wireConn = res
 	if !c.state.CompareAndSwap(connStatusReconnecting, connStatusConnected) {
-		panic(errors.Errorf("unexpected error: expected reconnecting but %v", c.state.current))
+		// Close was called while the redial was in progress. It is waiting for wireConnMu and will
+		// send Disconnect on, and close, the wire connection installed above.
+		return errors.ErrConnectionClosed
 	}
 	return nil
 }
